@@ -127,8 +127,8 @@ package rlwe
 //@   ensures implies(isnil(result) && len(ct.Value) == 1, val(c0) + val(enc.buffQP[1].Q) * val(sk.Value.Q) == fresh(XE, old(draws(XE))) && uni(enc.buffQP[1].Q))
 
 //@ afunc Element.Resize
-//@   trusted only level changes are modelled: the degree must already match
-//@   requires len(op.Value) == degree + 1
+//@   trusted the element loop and the append are not executed: afterwards the element has degree+1 components (levels are not tracked)
+//@   setlen op.Value = degree + 1
 
 // public-key encryption without auxiliary modulus: (u*pk0 + e0, u*pk1 + e1) with two distinct error draws
 //@ afunc Encryptor.encryptZeroPkNoP
@@ -395,3 +395,9 @@ package rlwe
 
 //@ afunc Parameters.SolveDiscreteLogGaloisElement
 //@   trusted opaque at the abstract level (only used to format an error message here)
+
+//@ afunc NewScale
+//@   trusted opaque at the abstract level: a scale
+
+//@ afunc Scale.Mul
+//@   trusted opaque at the abstract level: a scale
